@@ -88,10 +88,44 @@ def amodify {κ ν} [BEq κ] (k : κ) (f : ν → ν) : List (κ × ν) → List
 def isDigit (c : Char) : Bool := '0' ≤ c && c ≤ '9'
 def isUpper (c : Char) : Bool := 'A' ≤ c && c ≤ 'Z'
 def isLower (c : Char) : Bool := 'a' ≤ c && c ≤ 'z'
-/-- `str.isspace` restricted to ASCII: space, \t, \n, \v, \f, \r, and FS/GS/RS/US -/
+/-- the non-ASCII code points of `Py_UNICODE_ISSPACE` (CPython 3.12, Unicode 15.0) -/
+def isUniSpace (c : Char) : Bool :=
+  c.toNat == 0x85 || c.toNat == 0xa0 || c.toNat == 0x1680 || (0x2000 ≤ c.toNat && c.toNat ≤ 0x200a)
+  || c.toNat == 0x2028 || c.toNat == 0x2029 || c.toNat == 0x202f || c.toNat == 0x205f || c.toNat == 0x3000
+
+/-- `str.isspace` on one character, which is what `str.strip()`, `str.rstrip()` and `str.split()` use:
+space, \t, \n, \v, \f, \r, FS/GS/RS/US and the non-ASCII spaces -/
 def isPySpace (c : Char) : Bool :=
   c == ' ' || c == '\t' || c == '\n' || c == '\r' || c.toNat == 11 || c.toNat == 12
-  || (28 ≤ c.toNat && c.toNat ≤ 31)
+  || (28 ≤ c.toNat && c.toNat ≤ 31) || isUniSpace c
+
+/-- C's `isspace` in the "C" locale (`Py_ISSPACE`): what `int()` and `float()` skip around the number once
+the text has been folded to ASCII -/
+def isCSpace (c : Char) : Bool := c == ' ' || (9 ≤ c.toNat && c.toNat ≤ 13)
+
+/-- first code points (the digit zero) of the 68 runs of ten decimal digits of Unicode 15.0
+(`unicodedata.decimal`); the harness compares the whole table with the interpreter on every run -/
+def decimalZeros : List Nat :=
+  [0x30, 0x660, 0x6f0, 0x7c0, 0x966, 0x9e6, 0xa66, 0xae6, 0xb66, 0xbe6, 0xc66, 0xce6, 0xd66, 0xde6, 0xe50, 0xed0,
+   0xf20, 0x1040, 0x1090, 0x17e0, 0x1810, 0x1946, 0x19d0, 0x1a80, 0x1a90, 0x1b50, 0x1bb0, 0x1c40, 0x1c50, 0xa620,
+   0xa8d0, 0xa900, 0xa9d0, 0xa9f0, 0xaa50, 0xabf0, 0xff10, 0x104a0, 0x10d30, 0x11066, 0x110f0, 0x11136, 0x111d0,
+   0x112f0, 0x11450, 0x114d0, 0x11650, 0x116c0, 0x11730, 0x118e0, 0x11950, 0x11c50, 0x11d50, 0x11da0, 0x11f50,
+   0x16a60, 0x16ac0, 0x16b50, 0x1d7ce, 0x1d7d8, 0x1d7e2, 0x1d7ec, 0x1d7f6, 0x1e140, 0x1e2f0, 0x1e4f0, 0x1e950,
+   0x1fbf0]
+
+/-- `unicodedata.decimal(c)` -/
+def decimalValue? (c : Char) : Option Nat :=
+  (decimalZeros.find? fun z => z ≤ c.toNat && c.toNat < z + 10).map (c.toNat - ·)
+
+/-- `_PyUnicode_TransformDecimalAndSpaceToASCII`, one character: ASCII stays, a non-ASCII space becomes a
+blank, a non-ASCII decimal digit becomes its ASCII digit, anything else becomes `?` (CPython also cuts the
+text there; the `?` alone already makes the conversion fail) -/
+def foldChar (c : Char) : Char :=
+  if c.toNat < 128 then c
+  else if isUniSpace c then ' '
+  else match decimalValue? c with
+    | some d => Char.ofNat (48 + d)
+    | none => '?'
 
 def digitVal (c : Char) : Nat := c.toNat - '0'.toNat
 
@@ -111,6 +145,10 @@ def strip (s : Str) : Str := dropWhileEnd isPySpace (s.dropWhile isPySpace)
 def rstrip (s : Str) : Str := dropWhileEnd isPySpace s
 /-- `s.strip(" ")` -/
 def stripSp (s : Str) : Str := dropWhileEnd (· == ' ') (s.dropWhile (· == ' '))
+/-- what `int()` / `float()` parse: the text folded to ASCII, without surrounding C whitespace -/
+def numText (s : Str) : Str :=
+  let t := s.map foldChar
+  dropWhileEnd isCSpace (t.dropWhile isCSpace)
 
 /-- `s.split(sep)` for a one-character separator: always at least one piece -/
 def splitOnChar (sep : Char) : Str → List Str
@@ -157,6 +195,7 @@ def joinWith (sep : Str) : List Str → Str
 ASCII domain of the model). -/
 def isLineBreak (c : Char) : Bool :=
   c == '\n' || c == '\r' || c.toNat == 11 || c.toNat == 12 || (28 ≤ c.toNat && c.toNat ≤ 30)
+  || c.toNat == 0x85 || c.toNat == 0x2028 || c.toNat == 0x2029
 
 /-- `skipLF` is set directly after a `\r`, so that `\r\n` counts as one terminator -/
 def splitLinesGo (cur : Str) (acc : List Str) (skipLF : Bool) : Str → List Str
@@ -185,7 +224,7 @@ def digitsWithUnderscores (s : Str) : Option (List Char) := digitsGo 0 s
 
 /-- `int(s)` for a `str` argument, base 10. -/
 def pyInt (s : Str) : PyM Int :=
-  let t := strip s
+  let t := numText s
   let (neg, body) := match t with
     | '-' :: r => (true, r)
     | '+' :: r => (false, r)
@@ -201,7 +240,7 @@ def pyInt (s : Str) : PyM Int :=
 /-- Accepts what `float(s)` accepts (decimal / exponent forms, `inf`, `nan`), modulo underscores
 between digits; the *value* is never computed: coordinates are opaque tokens. -/
 def pyFloatOk (s : Str) : Bool :=
-  let t := (strip s).map Char.toLower
+  let t := (numText s).map Char.toLower
   let body := match t with
     | '-' :: r => r
     | '+' :: r => r
